@@ -14,6 +14,8 @@ DELIMS = {
     "angle": ("<%", "%>", "<%=", "%>", "<!--", "-->", None, None),
     "dollar": ("$%", "%$", "${", "}", "$#", "#$", None, None),
     "asp": ("<%", "%>", "<%=", "%>", "<%#", "#%>", None, None),
+    # end strings that do not start with an operator character, with line statements
+    "phpline": ("<?", "?>", "<?=", "?>", "<!--", "-->", "%", "%%"),
     "line": ("{%", "%}", "{{", "}}", "{#", "#}", "#", "##"),
     "linepct": ("<%", "%>", "${", "}", "<%#", "%>", "%", "%%"),
 }
@@ -198,7 +200,7 @@ def fragment_alphabet(cfg):
 
 EXPR_ATOMS = ["x", "foo", "1", "23", "1.5", "1e3", "0x1f", "0b1", "1_0", "'s'", '"t\\"u"', "+", "-", "*", "**", "//",
               "==", "!=", ">=", "<=", "(", ")", "[", "]", "{", "}", ".", ",", ":", "|", "~", " ", "  ", "\n", "\t",
-              "if", "raw", "endraw", "true", "_a1", "1.", ".5", "1e", "0b", "0_0", "09", "!", "'", "\\", "e5", "1.2.3"]
+              "if", "raw", "endraw", "true", "_a1", "\xa0", "\u2003", "\u3000 ", "\x85", "\x1c", "\u2028", "1.", ".5", "1e", "0b", "0_0", "09", "!", "'", "\\", "e5", "1.2.3"]
 
 
 def gen_tag_content(rng, balanced=True):
@@ -275,6 +277,11 @@ def render_route(jinja2, route, cfg, src, **ctxvars):
                 base.from_string("u{# c #}{% raw %}x{% endraw %}\n").render()
             return base.overlay(**kw)
         return _renv(jinja2, route, cfg, mk).from_string(src).render(**ctxvars)
+    if route == "overlay_subset":
+        import random as _r
+        rng = _route_envs.setdefault("subset_rng", _r.Random(20260921))
+        ov, _, _ = overlay_subset_env(jinja2, cfg, rng)
+        return ov.from_string(src).render(**ctxvars)
     if route == "sandboxed":
         from jinja2.sandbox import SandboxedEnvironment
         return _renv(jinja2, route, cfg, lambda: SandboxedEnvironment(**kw)).from_string(src).render(**ctxvars)
@@ -308,7 +315,47 @@ def render_route(jinja2, route, cfg, src, **ctxvars):
     raise ValueError(route)
 
 
-ROUTES = ["template_ctor", "overlay_of_used", "sandboxed", "immutable_sandboxed", "async_env", "autoescape", "unoptimized",
+OPTION_GROUPS = {
+    "syntax": ["block_start_string", "block_end_string", "variable_start_string", "variable_end_string",
+               "comment_start_string", "comment_end_string", "line_statement_prefix", "line_comment_prefix"],
+    "trim": ["trim_blocks"], "lstrip": ["lstrip_blocks"], "newline": ["newline_sequence"], "keep": ["keep_trailing_newline"],
+}
+
+
+def overlay_subset_env(jinja2, cfg, rng, groups=None, used=None):
+    """an overlay that overrides exactly a non-empty SUBSET of the option groups (syntax / trim / lstrip /
+    newline_sequence / keep_trailing_newline); the parent already has the target's values for the other groups and
+    different values for the overridden ones, so the overlay's effective configuration is `cfg`.  The parent has
+    (used=True) or has not lexed and rendered before overlay() is called."""
+    kw = cfg.kwargs()
+    names = list(OPTION_GROUPS)
+    if groups is None:
+        groups = [g for g in names if rng.random() < 0.4] or [rng.choice(names)]
+    if used is None:
+        used = rng.random() < 0.7
+    parent_kw = dict(kw)
+    over = {}
+    for g in groups:
+        for k in OPTION_GROUPS[g]:
+            over[k] = kw[k]
+        if g == "syntax":
+            other = DELIMS["dollar"] if cfg.name != "dollar" else DELIMS["default"]
+            for k, v in zip(OPTION_GROUPS["syntax"], other):
+                parent_kw[k] = v
+        elif g == "newline":
+            parent_kw["newline_sequence"] = "\r" if kw["newline_sequence"] != "\r" else "\n"
+        else:
+            k = OPTION_GROUPS[g][0]
+            parent_kw[k] = not kw[k]
+    parent = jinja2.Environment(**parent_kw)
+    if used:
+        bs, be = parent_kw["block_start_string"], parent_kw["block_end_string"]
+        parent.from_string("u \n " + bs + " if true " + be + "\n x\r\n" + bs + " endif " + be + "\n").render()
+        list(parent.lex("a\r\nb\n"))
+    return parent.overlay(**over), groups, used
+
+
+ROUTES = ["template_ctor", "overlay_of_used", "overlay_subset", "sandboxed", "immutable_sandboxed", "async_env", "autoescape", "unoptimized",
           "extensions", "loader", "markup_source", "str_subclass_source", "generate", "module"]
 
 
